@@ -314,7 +314,9 @@ class TagExtractor(PDFDevice):
         self._stack.append(tag)
 
     def end_tag(self) -> None:
-        assert self._stack, str(self.pageno)
+        if not self._stack:
+            # EMC without a matching BMC / BDC
+            return
         tag = self._stack.pop(-1)
         out_s = "</%s>" % utils.enc(cast(str, tag.name))
         self._write(out_s)
